@@ -349,6 +349,9 @@ pub struct GenCfg {
     pub roots: bool,
     pub clones: bool,
     pub rich_values: bool,
+    /// Sometimes drop the last handle of a span while it is still entered (a leaked enter guard:
+    /// `mem::forget(span.enter()); drop(span)`); the span then stays entered for good.
+    pub leak_enters: bool,
 }
 
 fn gen_vals(rng: &mut Rng, site: &Site, rich: bool) -> PVals {
@@ -495,6 +498,11 @@ fn gen_ops(rng: &mut Rng, cfg: &GenCfg, sites: &[Site], span_sites: &[usize], ev
                 if s >= n_shared && (others > 0 || !entered.contains(&span)) {
                     ops.push(POp::Drp(s));
                     handles[s].live = false;
+                } else if s >= n_shared && cfg.leak_enters && rng.chance(1, 3) {
+                    // the last handle goes away while the span is entered: it can never be exited
+                    ops.push(POp::Drp(s));
+                    handles[s].live = false;
+                    entered.retain(|e| *e != span);
                 }
             }
             12 if !live.is_empty() => {
